@@ -549,6 +549,9 @@ func (t *tr) inlineErr(e ast.Expr) (string, bool) {
 				if _, isBail := r.(bail); !isBail {
 					panic(r)
 				}
+				if os.Getenv("EXTRACT_DEBUG") != "" {
+					fmt.Fprintf(os.Stderr, "inlineErr %s: %v\n", fd.Name.Name, r)
+				}
 			}
 		}()
 		out = t2.block(fd.Body.List, "ErrKind.ok", "    ")
@@ -958,6 +961,18 @@ func prefixLookup(m map[string]string, name string) (string, bool) {
 		}
 	}
 	return val, best != ""
+}
+
+// assignsErrCall: one of the statements (top level of the list) is `…, err = <ErrCalls call>`.
+func (t *tr) assignsErrCall(list []ast.Stmt) bool {
+	for _, st := range list {
+		if as, ok := st.(*ast.AssignStmt); ok && len(as.Rhs) == 1 && len(as.Lhs) >= 1 && src(as.Lhs[len(as.Lhs)-1]) == "err" {
+			if _, known := prefixLookup(t.sp.ErrCalls, callKey(t.subst(as.Rhs[0]))); known {
+				return true
+			}
+		}
+	}
+	return false
 }
 
 // callKey: the whole call, normalised (`w.parse(prevRaw,logID)`): lets an ErrCalls key tell two calls of one function apart
@@ -2397,7 +2412,11 @@ func (t *tr) block(b []ast.Stmt, tail string, ind string) string {
 		return out + t.block(rest, tail, ind)
 	case *ast.IfStmt:
 		els := elseList(x.Else)
-		if !hasReturn(x.Body.List) && !hasReturn(els) && x.Init == nil {
+		// dup: translate in the continuation-duplicating form. Needed when a branch returns, and also when a branch assigns `err`
+		// from an ErrCalls call (`if p { x, err = f(…) } else { x, err = g(…) }; if err != nil {…}`): which call's error (and effect)
+		// the following test sees depends on the branch, so each branch carries its own copy of what follows
+		dup := hasReturn(x.Body.List) || hasReturn(els) || t.assignsErrCall(x.Body.List) || t.assignsErrCall(els)
+		if !dup && x.Init == nil {
 			vs0 := map[string]bool{}
 			t.assigned(x.Body.List, vs0)
 			t.assigned(els, vs0)
@@ -2440,6 +2459,16 @@ func (t *tr) block(b []ast.Stmt, tail string, ind string) string {
 				return t.block(append([]ast.Stmt{x.Init, &y}, rest...), tail, ind)
 			} else if as, ok := x.Init.(*ast.AssignStmt); ok && as.Tok == token.DEFINE && len(as.Lhs) == 1 && len(as.Rhs) == 1 {
 				// `if v := e; cond`: bind v, then the ordinary translation
+				if id, isId := as.Lhs[0].(*ast.Ident); isId && t.sp.Canon && id.Name != "_" && pureAccess(as.Rhs[0]) {
+					if _, fine := t.tryExpr(as.Rhs[0]); !fine {
+						// e is a plain access path that has no value in the unit's vocabulary (only tests on it have, e.g. `cfg.X != nil`):
+						// v stands for e in the condition and the branches (v is out of scope after the statement)
+						t.alias(id.Name, t.subst(as.Rhs[0]))
+						y := *x
+						y.Init = nil
+						return t.block(append([]ast.Stmt{&y}, rest...), tail, ind)
+					}
+				}
 				pre := "let " + t.lvalue(as.Lhs[0]) + " := " + t.expr(as.Rhs[0]) + "\n" + ind
 				y := *x
 				y.Init = nil
@@ -2462,7 +2491,7 @@ func (t *tr) block(b []ast.Stmt, tail string, ind string) string {
 			t.pendingErr = ""
 		} else if kc := t.nilCompare(t.subst(x.Cond)); kc != "" {
 			c = kc
-		} else if hasReturn(x.Body.List) || hasReturn(els) {
+		} else if dup {
 			// a test on data whose two outcomes turn out to continue identically need not be translatable (see below)
 			var ok bool
 			if c, ok = t.tryExpr(x.Cond); !ok {
@@ -2471,7 +2500,7 @@ func (t *tr) block(b []ast.Stmt, tail string, ind string) string {
 		} else {
 			c = t.expr(x.Cond)
 		}
-		if hasReturn(x.Body.List) || hasReturn(els) {
+		if dup {
 			// continuation-duplicating form
 			// a test already decided on this path (an inlined helper's return fixed what is compared): only the live branch exists
 			if c == "true" {
